@@ -1,6 +1,7 @@
 (* C05 — property theorems only: each closed by [exact lemma], followed by Print Assumptions. *)
 From Coq Require Import List ZArith Bool.
-From Verif Require Import MiniGo.Syntax MiniGo.Sem MiniGo.Fast C05.Proof C05.Sim C05.Switch C05.Correct C05.Final C05.Targets C05.GotoLbl C05.Goto.
+From Verif Require Import MiniGo.Syntax MiniGo.Sem MiniGo.Fast C05.Proof C05.Sim C05.Switch C05.Correct C05.Final C05.Targets C05.GotoLbl C05.Goto C05.ConstMap.
+From Verif Require C05.Model.
 Import ListNotations.
 
 (* Forward simulation (all programs without the goto STATEMENT, all fuel), with no premise on labels.  Kept under its
@@ -46,6 +47,17 @@ Theorem C05_switch_gotomap_equiv : forall v st cs hb t,
   exists hb', case_ip v st hb cs = Some hb' /\ t = hb' + 1.
 Proof. exact switch_gotomap_equiv. Qed.
 Print Assumptions C05_switch_gotomap_equiv.
+
+(* ... and only that table is: a table of ALL constant cases (caseHelper.ConstMap, kept for the duplicate-case error)
+   jumps past an earlier non-constant case that matches.  Witness: switch v { case 0: case 1: case x: case 2: } with
+   x = v = 2: the scan selects `case x` (header at 4), the ConstMap table the body of `case 2` (7); the table of the
+   leading constants has no entry for 2 *)
+Theorem C05_switch_constmap_refuted :
+  exists (v : Z) (st : envs) (cs : clauses) (hb t hb' : nat),
+    zassoc v (Verif.C05.Model.constmap hb cs) = Some t /\ case_ip v st hb cs = Some hb' /\ t <> hb' + 1 /\
+    zassoc v (gotomap hb cs true) = None /\ 2 <= length (gotomap hb cs true).
+Proof. exact constmap_not_equiv. Qed.
+Print Assumptions C05_switch_constmap_refuted.
 
 (* the number of Code slots of a construct is independent of context and position (what makes late patching of
    the captured *int targets equivalent to the compositional computation) *)
@@ -128,4 +140,32 @@ Proof.
   split; [reflexivity|]. split; [repeat constructor; simpl; intuition discriminate|].
   eexists _, _, _, _. split; [vm_compute; reflexivity|].
   split; [right; reflexivity|]. split; [vm_compute; reflexivity|]. reflexivity.
+Qed.
+
+(* non-vacuity for jumps that leave many frames at once (jumpOut's generic case upn >= 3 of fast/statement.go): a labelled
+   continue and a labelled break that each leave five block frames (the break lands on the PopEnv of the loop header's frame);
+   the compiled code contains two IJmp 5 and both sides compute the same trace *)
+Fixpoint ex_nest (k : nat) (s : stmt) : stmt :=
+  match k with
+  | O => s
+  | S k' => SBlock 1 (SSeq (SAssign 0 0 (EConst (Z.of_nat k))) (ex_nest k' s))
+  end.
+Definition ex_deep : stmt :=
+  SSeq (SLabeled 3 (SFor 1 [SiAssign 0 0 (EConst 0)] (Some (ELt (EVar 0 0) (EConst 2))) [SiAssign 0 0 (EAdd (EVar 0 0) (EConst 1))] 0
+        (SSeq (SEmit (EVar 0 0))
+              (ex_nest 5 (SSeq (SEmit (EVar 0 0))
+                         (SIf (EEq (EVar 5 0) (EConst 0)) 0 (SContinue (Some 3)) true (SBlock 0 (SBreak (Some 3)))))))))
+  (SSeq (SEmit (EConst 99)) SReturn).
+Definition jumps_up (n : nat) (code : list instr) : nat :=
+  length (filter (fun i => match i with IJmp u _ => Nat.eqb u n | _ => false end) code).
+
+Example ex_deep_hyp : nogoto ex_deep = true /\
+  exists o st tr code m, exec_func 200 2 ex_deep = Some (o, st, tr) /\ finished o /\ compile_func 2 ex_deep = Some code /\
+                       jumps_up 5 code = 2 /\
+                       run 200 code (init_state 2) = Some m /\ rev (m_tr m) = rev tr /\ rev tr = [0; 1; 1; 1; 99]%Z.
+Proof.
+  split; [reflexivity|]. eexists _, _, _, _, _. split; [vm_compute; reflexivity|].
+  split; [right; reflexivity|]. split; [vm_compute; reflexivity|].
+  split; [vm_compute; reflexivity|].
+  split; [vm_compute; reflexivity|]. split; reflexivity.
 Qed.
